@@ -45,7 +45,9 @@ Why_C11(r) ==
     LET T == BuildOf(r.defs) IN
     IF r.panic # "none" THEN {"panic"} ELSE
     Tag(r.ex = T.ex, "tables:exchanges") \cup Tag(r.as = T.as, "tables:assets") \cup Tag(r.ins = T.ins, "tables:instruments")
-    \cup Tag(r.sti = [p \in DOMAIN InstrumentStates(T) |->
+    \* (InstrumentStates is keyed by the internal name alone: claimed when those are distinct)
+    \cup Tag(InternalNamesDistinct(Range(r.defs)) =>
+              r.sti = [p \in DOMAIN InstrumentStates(T) |->
                   [ni |-> InstrumentStates(T)[p][1], key |-> InstrumentStates(T)[p][2].key,
                    id |-> InstrumentStates(T)[p][2].id, ok |-> TRUE]], "aligned:instrument_states")
     \cup Tag(r.sta = [p \in DOMAIN AssetStates(T) |->
@@ -65,19 +67,22 @@ WhyMap(T, m) ==
     IN
     Tag(m.xk = sm.xk, "map.exchange" \o c)
     \cup Tag(Len(m.an) = Len(sm.as) /\ Range(m.an) = {sm.as[j][2] : j \in DOMAIN sm.as}, "map.exchange_assets" \o c)
-    \cup Tag(Len(m.inn) = Len(sm.ins) /\ Range(m.inn) = {sm.ins[j][2] : j \in DOMAIN sm.ins}, "map.exchange_instruments" \o c)
+    \cup Tag(Range(m.inn) = {sm.ins[j][2] : j \in DOMAIN sm.ins}, "map.exchange_instruments" \o c)
     \cup Tag(m.ia = [p \in 1..(Len(T.as) + 1)  |-> AssetIndexToName(T, e, p)], "find_asset_name_exchange" \o c)
-    \cup Tag(m.ii = [p \in 1..(Len(T.ins) + 1) |-> InsIndexToName(T, e, p)], "find_instrument_name_exchange" \o c)
+    \* (instrument look-ups: membership in the spec's sets - singletons wherever the name is unique)
+    \cup Tag(Len(m.ii) = Len(T.ins) + 1 /\ \A p \in DOMAIN m.ii : m.ii[p] \in IndexToNameSet(sm.ins, p),
+             "find_instrument_name_exchange" \o c)
     \cup Tag(m.na = [n \in DOMAIN m.na |-> AssetNameToIndex(T, e, n)], "find_asset_index" \o c)
-    \cup Tag(m.ni = [n \in DOMAIN m.ni |-> InsNameToIndex(T, e, n)], "find_instrument_index" \o c)
+    \cup Tag(\A n \in DOMAIN m.ni : m.ni[n] \in NameToIndexSet(sm.ins, n), "find_instrument_index" \o c)
     \* Outbound, end to end: the manager of e is handed (own exchange index, instrument i)
-    \cup Tag(m.rq = [i \in 1..(Len(T.ins) + 1) |->
-                 LET q == OrderRequestResult(T, e, sm.xk, i)
-                 IN  [ok |-> q.ok, re |-> q.e, rn |-> q.n, back |-> IF q.ok THEN i ELSE 0]], "manager" \o c)
+    \* (the client answers for the name it was addressed with; the answer is indexed back)
+    \cup Tag(Len(m.rq) = Len(T.ins) + 1 /\ \A i \in DOMAIN m.rq :
+                 m.rq[i] \in UNION {IF q.ok THEN {[ok |-> TRUE, re |-> q.e, rn |-> q.n, back |-> b] : b \in NameToIndexSet(sm.ins, q.n)}
+                                             ELSE {[ok |-> FALSE, re |-> 0, rn |-> 0, back |-> 0]}
+                                    : q \in OrderRequestResults(T, e, sm.xk, i)}, "manager" \o c)
     \* Inbound: events of every exchange of the collection, naming every name
-    \cup UNION {Tag(m.ev[k] = [f \in DOMAIN T.ex |->
-                    [n \in DOMAIN m.ev[k][f] |->
-                       LET q == IndexEventResult(T, e, Kinds[k], T.ex[f], n) IN <<q.x, q.i>>]],
+    \cup UNION {Tag(Len(m.ev[k]) = Len(T.ex) /\ \A f \in DOMAIN m.ev[k] : \A n \in DOMAIN m.ev[k][f] :
+                       m.ev[k][f][n] \in {<<q.x, q.i>> : q \in IndexEventResults(T, e, Kinds[k], T.ex[f], n)},
                     "account_event:" \o Kinds[k] \o c) : k \in DOMAIN Kinds}
 
 Why_C04(r) ==
